@@ -42,6 +42,15 @@ def judge(ctx, kind, graph_seed, knobs, a_mode, b_mode, p_outside):
         A = Path("relative audio") / "A"       # relative directories are legitimate (lexical arithmetic only)
     if graph_seed % 3 == 1:
         B = Path("other rel") / "B dir"
+    # directory names that LOOK like shell syntax are ordinary names to a path (a folder called "$HOME", "~", "%TEMP%")
+    if graph_seed % 11 == 3:
+        A = Path(AC.tmpdir()) / "$HOME" / "${PATH}" / "A"
+    if graph_seed % 11 == 4:
+        A = Path("~") / "$HOME" / "A"
+    if graph_seed % 13 == 5:
+        B = Path(AC.tmpdir()) / "~" / "$HOME"
+    if graph_seed % 13 == 6:
+        B = Path("$HOME") / "%TEMP%" / "~user"
     graphs.make_link(A)
     obj, gen = graphs.make(kind, graph_seed, audio_root=A, p_outside=p_outside, **knobs)
     recs = _recordings(obj)
